@@ -238,6 +238,15 @@ def gen_dyn_case(rng):
   first_stmt = next(i for i, st in enumerate(body) if st.get('k') in ('bind', 'bindref'))
   unknown_sels = [['zz', 'q'], ['nosuchsym', 'f']] + [[sy, 'no_such_attr'] for sy in syms[:2]] + \
       [[sy, 'no_such_attr', 'deeper'] for sy in syms[:1]]
+  first_unit = None
+  if rng.random() < 0.4:
+    # an earlier file reached (and so registered) an object through a name of its own: in this file, whose imports do
+    # not provide that name, it is as unknown as any other
+    first_unit = [{'k': 'imp', 'module': ['__gin__', 'dynamic_registration'], 'from': True, 'alias': None},
+                  {'k': 'imp', 'module': ['c19pkg', 'm1'], 'from': False, 'alias': 'es'},
+                  {'k': 'bind', 'sel': ['es', 'f'], 'arg': 'a', 'v': 7, '_target': c19.name_to_id('c19pkg.m1:f')},
+                  {'k': 'nop', '_symtab': {}}]
+    unknown_sels += [['es', 'f'], ['es', 'f']]
   sk = rng.choice(['no', 'all', 'all', 'names', 'names', 'names'])
   skip = {'k': sk}
   if sk == 'names':
@@ -294,7 +303,7 @@ def gen_dyn_case(rng):
   for i, st in enumerate(body):
     out.extend(groups.get(i, []))
     out.append(st)
-  return {'dom': 'dyn', 'units': [out], 'skip': skip, '_dyn15': True}
+  return {'dom': 'dyn', 'units': ([first_unit] if first_unit else []) + [out], 'skip': skip, '_dyn15': True}
 
 
 def gen_cases(rng, tier, boost=1):
